@@ -104,6 +104,22 @@ def extract(ctx, body):
                 if src is not None and src not in carriers and src > body.arg_count:
                     carriers.add(src)
                     grew = True
+    # a literal `Err(Error::X)` built in the return slot of a helper merged into this body and then propagated with `?`:
+    # the error kind is known where it is built (the `?` site only sees "some error")
+    literal_err = {}
+    if body.j.get("inlined"):
+        for b in body.blocks:
+            if b.cleanup:
+                continue
+            for i, s in enumerate(b.stmts):
+                if s.kind == "assign" and s.place.is_local() and s.place.local not in carriers and not body.is_noise(s) \
+                        and s.rv.k == "agg" and s.rv.j.get("adt", "").endswith("result::Result") and s.rv.j.get("variant") == "Err":
+                    e = strip(an.operand_expr(s.rv.ops[0], (b.idx, i)))
+                    if e[0] == "call" and short(e[1]).endswith(("Into::into", "From::from")) and e[3]:
+                        e = strip(e[3][0])
+                    if e[0] == "agg":
+                        add(b.idx, i, "ret:err:" + e[1].split("::")[-1], body.site(s))
+                        literal_err[b.idx] = True
     for b in body.blocks:
         if b.cleanup:
             continue
@@ -154,6 +170,8 @@ class Dfa(object):
         tr = self.states.get(state, {})
         if event in tr:
             return tr[event]
+        if state == self.end and event == "ret:err:?":
+            return state    # the `?` that carries an already classified error outwards (helper merged into this body)
         if state != self.end and event in self.any:
             return self.any[event]
         return None
